@@ -1,6 +1,6 @@
 (* C14 - after shutdown every API call returns and every library goroutine exits. Property theorems only.
-   The hypothesis [all_guarded gen_sites = true] is an OBLIGATION generated from /repo's source on every run
-   (work/ShutdownGenObl.v); goroutine exit and the absence of panics are decided by the harness (TestVF_Shutdown). *)
+   The hypotheses [all_guarded gen_sites = true] and [all_replies_safe gen_replies = true] are OBLIGATIONS generated from
+   /repo's source on every run (work/ShutdownGenObl.v); goroutine exit and the absence of panics are decided by the harness (TestVF_Shutdown). *)
 From Coq Require Import List String Bool Arith.
 Import ListNotations.
 From PS Require Import Model.Shutdown Proofs.ShutdownProofs.
@@ -11,6 +11,12 @@ Theorem C14_guarded_sublist : forall l l', all_guarded l = true -> incl l' l -> 
 Proof. exact guarded_sublist. Qed.
 Theorem C14_unguarded_send_can_block : forall s, s_guarded s = false -> fst (call_after_shutdown [s; s] 1) = BlockedForever.
 Proof. exact unguarded_send_can_block. Qed.
+(* the event loop itself never hangs on an answer: every reply channel is buffered or its maker receives unconditionally *)
+Theorem C14_loop_reply_returns : forall l r caller_left,
+  all_replies_safe l = true -> In r l -> (caller_left = true -> caller_may_leave r = true) -> reply_send r caller_left = Returned.
+Proof. exact loop_reply_returns. Qed.
+Theorem C14_unsafe_reply_blocks_loop : forall r, reply_safe r = false -> caller_may_leave r = true /\ reply_send r true = BlockedForever.
+Proof. exact unsafe_reply_blocks_loop. Qed.
 Print Assumptions C14_guarded_sublist.
 
 Open Scope string_scope.
